@@ -10,7 +10,7 @@ From Coq Require Import List NArith Arith Bool.
 From SNT Require Import Base.Outcome Automata.DfaData Automata.DfaDataProofs Automata.Tokenizer
   Automata.TokenizerRun Automata.TokenizerMunch Automata.TokenizerTheorems Automata.Reach Automata.ReachProofs
   Decoder.Payload Decoder.PayloadProofs Decoder.PayloadOld Decoder.TermSizeProofs Decoder.TermcapProofs Decoder.Events
-  Decoder.EventsProofs Decoder.EventsTheorems Gen.ProdDFA.
+  Decoder.EventsProofs Decoder.EventsTheorems Gen.ProdDFA Decoder.ProdTabs.
 Import ListNotations.
 Local Open Scope N_scope.
 
@@ -26,15 +26,15 @@ Definition ev_VC : cert := Eval vm_compute in find_cert event_dfa tc_step 0 sear
 Definition cmd_VC : cert := Eval vm_compute in find_cert command_dfa tc_step 0 search_fuel.
 Definition u8_V : cert := Eval vm_compute in find_cert utf8_dfa len_step 0 search_fuel.
 
-Lemma event_certs : certs_ok event_dfa event_matcher_ids ev_VL ev_VT ev_VC = true.
+Lemma event_certs : certs_ok event_dfa event_matcher_ids prod_tabs ev_VL ev_VT ev_VC = true.
 Proof. vm_compute. reflexivity. Qed.
-Lemma command_certs : certs_ok command_dfa command_matcher_ids cmd_VL cmd_VT cmd_VC = true.
+Lemma command_certs : certs_ok command_dfa command_matcher_ids prod_tabs cmd_VL cmd_VT cmd_VC = true.
 Proof. vm_compute. reflexivity. Qed.
 Lemma utf8_cert : u8_cert_ok utf8_dfa u8_V = true.
 Proof. vm_compute. reflexivity. Qed.
 
-Definition ev_payload := payload_at event_matcher_ids decmode_codes decstatus_codes.
-Definition cmd_payload := payload_at command_matcher_ids decmode_codes decstatus_codes.
+Definition ev_payload := payload_at event_matcher_ids prod_tabs.
+Definition cmd_payload := payload_at command_matcher_ids prod_tabs.
 
 (* ------------------------------------------------------------------------- *)
 (* TTYEventDecoder / TTYCommandDecoder, any byte string, any partition into reads (empty reads
@@ -50,7 +50,7 @@ Theorem C02_total_event : forall (chunks : list (list N)) (fuel : nat),
     tty_decode event_dfa ev_payload s' [] = Ok (s', None, []) /\
     Forall (fun t => match t with TItem it _ => no_panic it | TRaw sp => sp <> [] end)
            (fst (t_munch event_dfa ev_payload (concat chunks))).
-Proof. exact (tty_total event_dfa event_matcher_ids decmode_codes decstatus_codes ev_VL ev_VT ev_VC event_certs). Qed.
+Proof. exact (tty_total event_dfa event_matcher_ids prod_tabs ev_VL ev_VT ev_VC event_certs). Qed.
 
 Theorem C02_total_command : forall (chunks : list (list N)) (fuel : nat),
   (length (concat chunks) + 3 <= fuel)%nat ->
@@ -61,7 +61,26 @@ Theorem C02_total_command : forall (chunks : list (list N)) (fuel : nat),
     tty_decode command_dfa cmd_payload s' [] = Ok (s', None, []) /\
     Forall (fun t => match t with TItem it _ => no_panic it | TRaw sp => sp <> [] end)
            (fst (t_munch command_dfa cmd_payload (concat chunks))).
-Proof. exact (tty_total command_dfa command_matcher_ids decmode_codes decstatus_codes cmd_VL cmd_VT cmd_VC command_certs). Qed.
+Proof. exact (tty_total command_dfa command_matcher_ids prod_tabs cmd_VL cmd_VT cmd_VC command_certs). Qed.
+
+(* run level: the decoder in which a panicking payload decoder aborts the run at the byte where
+   the code calls it (Decoder/Events.v `_c` loops: every accepting state reached calls its decoder,
+   also for candidates that a longer match replaces) never panics and is exhausted at the end *)
+Theorem C02_run_no_panic_event : forall (chunks : list (list N)) (fuel : nat),
+  (length (concat chunks) + 3 <= fuel)%nat ->
+  exists s',
+    tty_feed_c event_dfa ev_payload fuel (t_init event_dfa) chunks
+      = Ok (fst (t_munch event_dfa ev_payload (concat chunks)), s') /\
+    tty_decode_c event_dfa ev_payload s' [] = Ok (s', None, []).
+Proof. exact (tty_total_checked event_dfa event_matcher_ids prod_tabs ev_VL ev_VT ev_VC event_certs). Qed.
+
+Theorem C02_run_no_panic_command : forall (chunks : list (list N)) (fuel : nat),
+  (length (concat chunks) + 3 <= fuel)%nat ->
+  exists s',
+    tty_feed_c command_dfa cmd_payload fuel (t_init command_dfa) chunks
+      = Ok (fst (t_munch command_dfa cmd_payload (concat chunks)), s') /\
+    tty_decode_c command_dfa cmd_payload s' [] = Ok (s', None, []).
+Proof. exact (tty_total_checked command_dfa command_matcher_ids prod_tabs cmd_VL cmd_VT cmd_VC command_certs). Qed.
 
 (* every call of a payload decoder — including those whose result is replaced by a longer
    match — is made on a string the automaton accepts (C02_calls_accepted), and on such strings
@@ -71,20 +90,27 @@ Theorem C02_payload_no_panic : forall w q,
   run N (d_start event_dfa) (d_delta event_dfa) w = Some q ->
   d_accepting event_dfa q = true ->
   forall site, item_of ev_payload event_dfa q w <> Some (IPanic site).
-Proof. exact (item_no_panic event_dfa event_matcher_ids decmode_codes decstatus_codes ev_VL ev_VT ev_VC event_certs). Qed.
+Proof. exact (item_no_panic event_dfa event_matcher_ids prod_tabs ev_VL ev_VT ev_VC event_certs). Qed.
 
 Theorem C02_payload_no_panic_command : forall w q,
   run N (d_start command_dfa) (d_delta command_dfa) w = Some q ->
   d_accepting command_dfa q = true ->
   forall site, item_of cmd_payload command_dfa q w <> Some (IPanic site).
-Proof. exact (item_no_panic command_dfa command_matcher_ids decmode_codes decstatus_codes cmd_VL cmd_VT cmd_VC command_certs). Qed.
+Proof. exact (item_no_panic command_dfa command_matcher_ids prod_tabs cmd_VL cmd_VT cmd_VC command_certs). Qed.
 
 Theorem C02_calls_accepted : forall (s : st N pitem) b q' w,
   Inv N pitem (d_start event_dfa) (d_delta event_dfa) (d_accepting event_dfa) (d_terminal event_dfa)
       (item_of ev_payload event_dfa) s ->
   call_of event_dfa s b = Some (q', w) ->
   run N (d_start event_dfa) (d_delta event_dfa) w = Some q' /\ d_accepting event_dfa q' = true.
-Proof. exact (call_accepted event_dfa event_matcher_ids decmode_codes decstatus_codes). Qed.
+Proof. exact (call_accepted event_dfa event_matcher_ids prod_tabs). Qed.
+
+Theorem C02_calls_accepted_command : forall (s : st N pitem) b q' w,
+  Inv N pitem (d_start command_dfa) (d_delta command_dfa) (d_accepting command_dfa) (d_terminal command_dfa)
+      (item_of cmd_payload command_dfa) s ->
+  call_of command_dfa s b = Some (q', w) ->
+  run N (d_start command_dfa) (d_delta command_dfa) w = Some q' /\ d_accepting command_dfa q' = true.
+Proof. exact (call_accepted command_dfa command_matcher_ids prod_tabs). Qed.
 
 (* Utf8Decoder: never overruns its 4-byte buffer, terminates, yields only scalar values *)
 Theorem C02_utf8_decoder : forall chunks : list (list N),
@@ -93,6 +119,17 @@ Theorem C02_utf8_decoder : forall chunks : list (list N),
 Proof.
   intros chunks. apply (u8_feed_total utf8_dfa u8_V utf8_cert). apply (u8_init_inv utf8_dfa u8_V utf8_cert).
 Qed.
+
+(* ... its output does not depend on how the bytes are cut into reads, and a decode on an empty
+   reader returns Ok(None) in every state *)
+Theorem C02_utf8_decoder_chunking : forall chunks : list (list N),
+  u8_feed utf8_dfa (u8_init utf8_dfa) chunks = u8_feed utf8_dfa (u8_init utf8_dfa) [concat chunks].
+Proof.
+  intros chunks. apply (u8_feed_chunking utf8_dfa u8_V utf8_cert). apply (u8_init_inv utf8_dfa u8_V utf8_cert).
+Qed.
+
+Theorem C02_utf8_decoder_exhausted : forall s : u8st, u8_decode utf8_dfa s [] = Ok (s, None, []).
+Proof. reflexivity. Qed.
 
 (* characters are Unicode scalar values *)
 Theorem C02_chars_scalar :
@@ -121,6 +158,52 @@ Theorem C02_cursor_position : forall data row col,
   exists body rest, mid data 2 1 = Ok body /\ numbers_decode body 59 = (row + 1) :: (col + 1) :: rest.
 Proof. exact dec_cursor_spec. Qed.
 
+(* the same for every other decoder with numeric fields: each field is an element of a parameter
+   list of the sequence (hence, by C02_parameter_values / C02_numbers, the clamped unbounded decimal
+   value of its digits), minus one for the one-based mouse coordinates; function-key numbers are an
+   offset of the key code; modifier sets are the nine known bits of (m - 1) *)
+Theorem C02_numeric_fields :
+  (forall data name mode row col, dec_mouse data = Ok (RSome (PMouse name mode row col)) ->
+     exists body e rest last,
+       mid data 3 1 = Ok body /\ numbers_decode body 59 = e :: (col + 1) :: (row + 1) :: rest /\
+       index data (length data - 1) = Ok last /\
+       mode = (let m := N.land (N.land (N.shiftr e 2) 7) 511 in if last =? 77 then N.lor m 256 else m)) /\
+  (forall data a b c d, dec_termsize data = Ok (RSome (PSize a b c d)) ->
+     exists p0 cell pix more cb pb r1 r2,
+       split_on 27 data = p0 :: cell :: pix :: more /\
+       mid cell 3 1 = Ok cb /\ numbers_decode cb 59 = a :: b :: r1 /\
+       mid pix 3 1 = Ok pb /\ numbers_decode pb 59 = c :: d :: r2) /\
+  (forall data n, dec_kitty_keyboard data = Ok (RSome (PKeyLevel n)) ->
+     exists rest, mid data 2 1 = Ok (63 :: rest) /\ number_decode rest = Some n) /\
+  (forall data kind arg mode, dec_kitty_keyboard data = Ok (RSome (PKey kind arg mode)) ->
+     exists body codes fields,
+       mid data 2 1 = Ok body /\ split_on 59 body = codes :: fields /\
+       keyboard_key (match numbers_decode codes 58 with c :: _ => c | [] => 1 end) = Some (kind, arg) /\
+       mode = match fields with
+              | [] => 0
+              | modes :: _ => match numbers_decode modes 58 with
+                              | m :: _ => if 1 <? m then N.land (m - 1) 511 else 0
+                              | [] => 0
+                              end
+              end) /\
+  (forall code kind arg, keyboard_key code = Some (kind, arg) ->
+     (kind = 0 /\ code = 27) \/ (kind = 1 /\ code = 13) \/ (kind = 2 /\ code = 9) \/ (kind = 3 /\ code = 127) \/
+     (kind = 4 /\ 57376 <= code <= 57398 /\ arg = code - 57376 + 13) \/
+     (kind = 5 /\ arg = code /\ scalar_ok code = true)) /\
+  (forall data l, dec_devattrs data = Ok (RSome (PDevAttrs l)) ->
+     exists body, mid data 3 1 = Ok body /\ l = to_set (filter (fun v => 0 <? v) (numbers_decode body 59))) /\
+  (forall data id pl err, dec_kitty_image data = Ok (RSome (PKitty id pl err)) ->
+     exists body, mid data 3 2 = Ok body /\
+       let kvs := key_value_decode 44 (fst (split_first 59 body)) in
+       (id = 0 \/ exists v, In ([105], v) kvs /\ number_decode v = Some id) /\
+       (pl = None \/ exists v n, In ([112], v) kvs /\ number_decode v = Some n /\ pl = Some n)) /\
+  (forall data idx r, dec_osc data = Ok r -> (r = RSome (PColor 2 idx) \/ r = RExt (PColor 2 idx)) ->
+     exists body a0 a1 rest, split_on 59 body = a0 :: a1 :: rest /\ number_decode a0 = Some 4 /\ number_decode a1 = Some idx).
+Proof.
+  exact (conj dec_mouse_spec (conj dec_termsize_spec (conj dec_keylevel_spec (conj dec_key_spec
+        (conj keyboard_key_spec (conj dec_devattrs_spec (conj dec_kitty_image_spec dec_osc_palette_spec))))))).
+Qed.
+
 (* unrecognised input surfaces as raw events whose bytes occur in the input in order: all spans,
    recognised or raw, followed by the pending bytes, are the input *)
 Theorem C02_spans_in_order : forall s : list N,
@@ -128,6 +211,13 @@ Theorem C02_spans_in_order : forall s : list N,
 Proof.
   exact (munch_concat N pitem (d_start event_dfa) (d_delta event_dfa) (d_accepting event_dfa)
            (d_terminal event_dfa) (item_of ev_payload event_dfa)).
+Qed.
+
+Theorem C02_spans_in_order_command : forall s : list N,
+  concat (map span (fst (t_munch command_dfa cmd_payload s))) ++ snd (t_munch command_dfa cmd_payload s) = s.
+Proof.
+  exact (munch_concat N pitem (d_start command_dfa) (d_delta command_dfa) (d_accepting command_dfa)
+           (d_terminal command_dfa) (item_of cmd_payload command_dfa)).
 Qed.
 
 (* every accepting state of both automata is tagged (decoder.rs:257-261 `expect`), and the payload
